@@ -25,7 +25,7 @@ import warnings
 from concurrent.futures import ThreadPoolExecutor
 from pathlib import Path
 
-from .kernel import ROOT, WORK_DIR, Monitor
+from .kernel import EarlyStop, ROOT, WORK_DIR, Monitor
 
 WATCHDOG = {"quick": 600, "thorough": 3600}
 
@@ -46,6 +46,13 @@ def run_shard(mod, mon: Monitor, tier: str, seed: int, shard: int, nshards: int)
         mod.run(mon, tier, seed, shard, nshards)
     except Exception as e:  # harness failure -> inconclusive
         mon.error("harness", e)
+    except EarlyStop:
+        try:  # monitors attached by the property module are taken off again (its own finally clauses have run already)
+            from .attach import detach_all
+
+            detach_all()
+        except Exception:  # noqa: BLE001
+            pass
     from . import gen
 
     if gen.CHURN["crs"]:
